@@ -291,15 +291,43 @@ func mustScript(id int, pad json.RawMessage, ops ...Op) json.RawMessage {
 // TestC02Concurrent: many connections served at the same time, each receiving large replies with
 // connection-specific content (a write in flight on one connection while others are being
 // encoded), on both transports. Framing and content are checked per connection by ExecProto.
-func TestC02Concurrent(t *testing.T) {
-	type cfg struct {
-		tr    string
-		conns int
-		size  int
+type concCfg struct {
+	tr    string
+	conns int
+	size  int
+}
+
+// concurrentBigCase: conns connections, three calls each, every reply a document of about size bytes that names its
+// connection and call; with refused the first call of every connection starts with a reply attempt that cannot be encoded.
+func concurrentBigCase(cf concCfg, refused bool, origin string) ProtoCase {
+	c := ProtoCase{Ifaces: []string{"x.y"}, Transport: cf.tr, Origin: origin}
+	for conn := 0; conn < cf.conns; conn++ {
+		cc := ConnCase{AbortAt: -1}
+		for call := 0; call < 3; call++ {
+			unit := fmt.Sprintf("<conn %d call %d \\\"q\\\" \\u0000 é>", conn, call)
+			var sb strings.Builder
+			sb.WriteString(`{"pad":"`)
+			for sb.Len() < cf.size {
+				sb.WriteString(unit)
+			}
+			sb.WriteString(`"}`)
+			sp := ScriptParams{Conn: conn, ID: call, Script: []Op{{Op: "reply", P: json.RawMessage(sb.String())}}}
+			if call == 0 && refused {
+				// a reply attempt whose parameters cannot be encoded (refused, nothing written) precedes the real one
+				sp.Script = append([]Op{{Op: "reply", Go: "nan"}}, sp.Script...)
+			}
+			b, _ := json.Marshal(sp)
+			cc.Frames = append(cc.Frames, EncodeCall("x.y.Big", b, false, false, false))
+		}
+		c.Conns = append(c.Conns, cc)
 	}
-	cfgs := []cfg{{"pipe", 12, 200000}, {"unix", 12, 400000}, {"unix", 32, 700000}, {"pipe", 24, 70000}, {"unix", 6, 1500000}, {"unix", 48, 300000}}
+	return c
+}
+
+func TestC02Concurrent(t *testing.T) {
+	cfgs := []concCfg{{"pipe", 12, 200000}, {"unix", 12, 400000}, {"unix", 32, 700000}, {"pipe", 24, 70000}, {"unix", 6, 1500000}, {"unix", 48, 300000}}
 	if Thorough() {
-		cfgs = append(cfgs, cfg{"unix", 64, 1000000}, cfg{"pipe", 48, 500000}, cfg{"unix", 16, 3000000})
+		cfgs = append(cfgs, concCfg{"unix", 64, 1000000}, concCfg{"pipe", 48, 500000}, concCfg{"unix", 16, 3000000})
 	}
 	shard, nshards := Shard()
 	i := 0
@@ -311,29 +339,7 @@ func TestC02Concurrent(t *testing.T) {
 			if k%nshards != shard {
 				continue
 			}
-			cf := cfgs[k%len(cfgs)]
-			c := ProtoCase{Ifaces: []string{"x.y"}, Transport: cf.tr, Origin: "C02Concurrent"}
-			for conn := 0; conn < cf.conns; conn++ {
-				cc := ConnCase{AbortAt: -1}
-				for call := 0; call < 3; call++ {
-					unit := fmt.Sprintf("<conn %d call %d \\\"q\\\" \\u0000 é>", conn, call)
-					var sb strings.Builder
-					sb.WriteString(`{"pad":"`)
-					for sb.Len() < cf.size {
-						sb.WriteString(unit)
-					}
-					sb.WriteString(`"}`)
-					sp := ScriptParams{Conn: conn, ID: call, Script: []Op{{Op: "reply", P: json.RawMessage(sb.String())}}}
-					if call == 0 && k%2 == 1 {
-						// a reply attempt whose parameters cannot be encoded (refused, nothing written) precedes the real one
-						sp.Script = append([]Op{{Op: "reply", Go: "nan"}}, sp.Script...)
-					}
-					b, _ := json.Marshal(sp)
-					cc.Frames = append(cc.Frames, EncodeCall("x.y.Big", b, false, false, false))
-				}
-				c.Conns = append(c.Conns, cc)
-			}
-			return c, true
+			return concurrentBigCase(cfgs[k%len(cfgs)], k%2 == 1, "C02Concurrent"), true
 		}
 		return ProtoCase{}, false
 	}
